@@ -59,7 +59,7 @@ VERIF_CONTRACT_VOID(_dispatch_operation_deliver_data, (dispatch_operation_t op, 
 )
 void harness(void)
 {
-	VERIF_GHOST_RESET(); __verif_crash_is_bug = 1; _dispatch_data_empty.size = 0;
+	VERIF_GHOST_RESET(); __verif_crash_is_bug = 1; h_io_reset(); _dispatch_data_empty.size = 0;
 	H_W = ND(size_t); H_L = ND(size_t); H_BL = ND(size_t); H_BS = ND(size_t); H_UD = ND(size_t); H_low = ND(size_t);
 	H_opflags0 = ND(dispatch_op_flags_t); H_err0 = ND(int); H_stopped = ND_BOOL();
 	__CPROVER_assume(H_W <= H_L && H_L <= (1ull << 40) && H_BS <= H_L - H_W && H_BL <= H_BS && H_UD <= (1ull << 40));
